@@ -52,7 +52,7 @@ func (c *peCase) spawnFor(test string) (spawn, error) {
 	if err != nil {
 		return spawn{}, err
 	}
-	if err := writeFile(dir+"/config.yaml", c.Cfg.YAML()); err != nil {
+	if err := writeConfig(dir, c.Cfg); err != nil {
 		return spawn{}, err
 	}
 	if c.Level == "proc" {
